@@ -55,56 +55,115 @@ class Item:
         self.name = name
 
 
-def make_binding_class():
-    """A fresh driver class (fresh class-level Job objects) in the style of XTBDriver."""
+# class-level defaults of the flavours that have them / the settings declared on one Job itself
+CLS_ENV = {"C17_C": "cls", "C17_A": "cls-a"}
+JOB_ENV = {"C17_J": "job", "C17_B": "job-b"}
+HOST_EXE, HOST_NPROCS = "sh", 4
 
-    class ShDriver(DriverBase):
-        default_executable = "sh"
-
-        @Job(return_files=("res.txt",)).prep
-        def single(self, M, tag="t", level=0):
-            return JobInput(
-                M.name,
-                commands=[(f"{self.executable} -c 'echo {tag} {level} > res.txt' -P {self.nprocs}", "main")],
-                files={"input.txt": M.name.encode()},
-                return_files=self.return_files,
-                envars=self.envars,
-            )
-
-        @single.post
-        def single(self, out, M, **kwargs):
-            return out.files["res.txt"]
-
-        many = Job.vectorize(single)
-
-        @many.reduce
-        def many(self, outputs, items, *args, **kwargs):
-            return list(outputs)
-
-        @Job(return_files=()).prep
-        def other(self, M, tag="t", level=0):
-            return JobInput(
-                M.name,
-                commands=[(f"{self.executable} -c 'echo other {tag} {level}' -P {self.nprocs}", "main")],
-                return_files=self.return_files,
-                envars=self.envars,
-            )
-
-        @other.post
-        def other(self, out, M, **kwargs):
-            return out.stdouts["main"]
-
-    return ShDriver
+# flavour -> jobs of the class, settings of the instances (executable, nprocs, envars)
+FLAVOURS = {
+    # DriverBase subclass without class-level settings (XTBDriver as shipped)
+    "plain": dict(
+        jobs=("single", "many", "other"),
+        settings=[("sh", 1, None), ("bash", 7, {"C17_A": "seven"}), ("dash", 3, {"C17_A": "three", "C17_B": "b"})],
+    ),
+    # DriverBase subclass with class-level envars; one job declares envars of its own
+    "clsenv": dict(
+        jobs=("single", "many", "jenv"),
+        settings=[("sh", 1, None), ("bash", 7, {"C17_A": "seven"}), ("dash", 3, {"C17_A": "three", "C17_B": "b"}), ("env", 5, {"C17_D": "d"})],
+    ),
+    # plain host class with class-level executable / nprocs / envars; an instance carries only what it overrides
+    "host": dict(
+        jobs=("single", "many", "jenv"),
+        settings=[(None, None, None), ("bash", 7, {"C17_A": "seven"}), ("dash", None, {"C17_D": "d"}), (None, 3, {})],
+    ),
+}
+JOB_RETURN = {"single": ("res.txt",), "many": ("res.txt",), "other": (), "jenv": ()}
 
 
-SETTINGS = [
-    # (executable, nprocs, envars) - pairwise distinct in every field
-    ("sh", 1, None),
-    ("bash", 7, {"C17_A": "seven"}),
-    ("dash", 3, {"C17_A": "three", "C17_B": "b"}),
-]
-JOBS = ("single", "many", "other")
-JOB_RETURN = {"single": ("res.txt",), "many": ("res.txt",), "other": ()}
+def make_binding_class(flavour="plain"):
+    """A fresh class with fresh class-level Job objects, built with the calls the decorators of
+    XTBDriver make (`Job(...).prep(f)`, `.post(f)`, `Job.vectorize(job)`, `.reduce(f)`)."""
+
+    def single_prep(self, M, tag="t", level=0):
+        return JobInput(
+            M.name,
+            commands=[(f"{self.executable} -c 'echo {tag} {level} > res.txt' -P {self.nprocs}", "main")],
+            files={"input.txt": M.name.encode()},
+            return_files=self.return_files,
+            envars=self.envars,
+        )
+
+    def single_post(self, out, M, **kwargs):
+        return out.files["res.txt"]
+
+    def many_reduce(self, outputs, items, *args, **kwargs):
+        return list(outputs)
+
+    def other_prep(self, M, tag="t", level=0):
+        return JobInput(
+            M.name,
+            commands=[(f"{self.executable} -c 'echo other {tag} {level}' -P {self.nprocs}", "main")],
+            return_files=self.return_files,
+            envars=self.envars,
+        )
+
+    def other_post(self, out, M, **kwargs):
+        return out.stdouts["main"]
+
+    single = Job(return_files=("res.txt",)).prep(single_prep)
+    single.post(single_post)
+    many = Job.vectorize(single)
+    many.reduce(many_reduce)
+    ns = {"single": single, "many": many}
+    shared = {}
+    if flavour == "plain":
+        other = Job(return_files=()).prep(other_prep)
+        other.post(other_post)
+        ns["other"] = other
+    else:
+        shared["job_env"] = dict(JOB_ENV)
+        jenv = Job(return_files=(), envars=shared["job_env"]).prep(other_prep)
+        jenv.post(other_post)
+        ns["jenv"] = jenv
+        shared["cls_env"] = dict(CLS_ENV)
+        ns["envars"] = shared["cls_env"]
+    if flavour == "host":
+        ns["executable"] = HOST_EXE
+        ns["nprocs"] = HOST_NPROCS
+        cls = type("Host", (object,), ns)
+    else:
+        ns["default_executable"] = "sh"
+        cls = type("ShDriver", (DriverBase,), ns)
+    return cls, shared
+
+
+def make_instance(cls, flavour, s):
+    exe, nprocs, envars = FLAVOURS[flavour]["settings"][s]
+    env = None if envars is None else dict(envars)
+    if flavour == "host":
+        d = cls()
+        if exe is not None:
+            d.executable = exe
+        if nprocs is not None:
+            d.nprocs = nprocs
+        if env is not None:
+            d.envars = env
+        return d, env
+    return cls(exe, nprocs=nprocs, envars=env), env
+
+
+def expected_settings(flavour, s, jname):
+    """class defaults < instance < settings declared on the Job itself."""
+    exe, nprocs, env = FLAVOURS[flavour]["settings"][s]
+    if flavour == "host":
+        exe = exe or HOST_EXE
+        nprocs = nprocs or HOST_NPROCS
+    e = dict(CLS_ENV) if flavour != "plain" else {}
+    e.update(env or {})
+    if jname == "jenv":
+        e.update(JOB_ENV)
+    return exe, nprocs, e
 
 
 def binding_histories(n, max_uses, jobs, order):
@@ -134,18 +193,21 @@ def binding_histories(n, max_uses, jobs, order):
         frontier = nxt
 
 
-def binding_exec(hist):
-    """Run one history on a fresh class; return the list of observations, one per op."""
-    cls = make_binding_class()
+def binding_exec(hist, flavour="plain"):
+    """Run one history on a fresh class; return the list of observations, one per op, and the state of
+    every shared settings object afterwards."""
+    cls, shared = make_binding_class(flavour)
     drivers = {}
+    inst_env = {}
     handles = {}
     obs = []
+    env_objects = []  # envars dict objects of the JobInputs built so far
     for step, op in enumerate(hist):
         if op[0] == "new":
-            exe, nprocs, envars = SETTINGS[op[1]]
-            d = cls(exe, nprocs=nprocs, envars=None if envars is None else dict(envars))
+            d, env = make_instance(cls, flavour, op[1])
             drivers[op[1]] = d
-            obs.append(("new", d.executable))
+            inst_env[op[1]] = env
+            obs.append(("new", getattr(d, "executable", None)))
         else:
             how, s, jname = op
             d = drivers[s]
@@ -174,6 +236,8 @@ def binding_exec(hist):
                     argv = shlex.split(ji.commands[0][0])
                 except Exception:
                     argv = [ji.commands[0][0]]
+                if isinstance(ji.envars, dict):
+                    env_objects.append(ji.envars)
                 rec.append(
                     (
                         "ji",
@@ -187,40 +251,47 @@ def binding_exec(hist):
                     )
                 )
             obs.append(("use", tuple(rec)))
-    return obs, drivers
+    state = {
+        "cls_env": None if "cls_env" not in shared else dict(getattr(cls, "envars", None) or {}),
+        "cls_env_same_object": "cls_env" not in shared or getattr(cls, "envars", None) is shared["cls_env"],
+        "job_env": None if "job_env" not in shared else dict(cls.__dict__["jenv"].envars or {}),
+        "inst_env": {s: (None if getattr(d, "__dict__", {}).get("envars") is None else dict(d.__dict__["envars"])) for s, d in drivers.items()},
+        "inst_env_expected": inst_env,
+        "jobinput_shares_class_dict": any(o is shared.get("cls_env") or o is shared.get("job_env") for o in env_objects),
+        "jobinputs_share_dict": len({id(o) for o in env_objects}) < len(env_objects),
+    }
+    return obs, state
 
 
-def binding_check_last(ctx, hist, obs, drivers, report=True):
+def binding_check_last(ctx, hist, obs, state, flavour="plain", report=True):
     """Oracle for the LAST op of the history (prefixes were validated as shorter histories).
     Returns True when the step is fine."""
     op = hist[-1]
     o = obs[-1]
+    settings = FLAVOURS[flavour]["settings"]
+    case = {"part": "A", "flavour": flavour, "history": [list(x) for x in hist]}
     if op[0] == "new":
-        exe = SETTINGS[op[1]][0]
+        exe = settings[op[1]][0] or (HOST_EXE if flavour == "host" else None)
         ok = o[1] in (exe, shutil.which(exe))
         if not ok and report:
-            ctx.violation("binding:new:driver-executable-not-set", f"driver created with executable {exe!r} shows {o[1]!r}", {"part": "A", "history": [list(x) for x in hist]})
+            ctx.violation("binding:new:driver-executable-not-set", f"driver created with executable {exe!r} shows {o[1]!r}", case)
         return ok
     _, s, jname = op
     step = len(hist) - 1
-    d = drivers[s]
-    exe, nprocs, envars = SETTINGS[s]
+    exe, nprocs, env = expected_settings(flavour, s, jname)
+    raw = settings[s]
     exp_exe = (exe, shutil.which(exe))
-    exp_env = tuple(sorted((envars or {}).items()))
-    # settings of the drivers that went through this Job object earlier (for symptom classification)
-    earlier = [SETTINGS[x[1]] for x in hist[:-1] if x[0] != "new" and x[2] == jname and x[1] != s]
+    exp_env = tuple(sorted(env.items()))
+    # effective settings of the OTHER instances that were used before this step (symptom classification)
+    earlier = [expected_settings(flavour, x[1], x[2]) for x in hist[:-1] if x[0] != "new" and x[1] != s]
     ok = True
 
     def viol(field, symptom, what):
         nonlocal ok
         ok = False
         if report:
-            ctx.violation(
-                f"binding:{field}:{symptom}",
-                what,
-                {"part": "A", "history": [list(x) for x in hist]},
-                repro=BINDING_REPRO if symptom == "settings-of-other-driver" else None,
-            )
+            repro = BINDING_REPRO if symptom == "settings-of-other-driver" else CLASS_REPRO if symptom == "class-default-overrides-instance" else None
+            ctx.violation(f"binding:{field}:{symptom}", what, case, repro=repro)
 
     if o[0] == "exc":
         viol("prepare", f"raised-{o[1]}", f"{jname}.prepare raised {o[1]}: {o[2]}")
@@ -231,22 +302,61 @@ def binding_check_last(ctx, hist, obs, drivers, report=True):
             continue
         _, jid, got_exe, got_np, script, got_env, got_ret, nm = rec
         if got_exe not in exp_exe:
-            stale = any(got_exe in (e[0], shutil.which(e[0])) for e in earlier)
-            viol("executable", "settings-of-other-driver" if stale else "wrong-value", f"JobInput built through a driver with executable {exe!r} runs {got_exe!r}")
+            if flavour == "host" and raw[0] is not None and got_exe in (HOST_EXE, shutil.which(HOST_EXE)):
+                sym = "class-default-overrides-instance"
+            elif any(got_exe in (e[0], shutil.which(e[0])) for e in earlier):
+                sym = "settings-of-other-driver"
+            else:
+                sym = "wrong-value"
+            viol("executable", sym, f"JobInput built through an instance with executable {exe!r} runs {got_exe!r} ({flavour})")
         if got_np != str(nprocs):
-            stale = any(got_np == str(e[1]) for e in earlier)
-            viol("nprocs", "settings-of-other-driver" if stale else "wrong-value", f"JobInput built through a driver with nprocs={nprocs} carries -P {got_np}")
+            if flavour == "host" and raw[1] is not None and got_np == str(HOST_NPROCS):
+                sym = "class-default-overrides-instance"
+            elif any(got_np == str(e[1]) for e in earlier):
+                sym = "settings-of-other-driver"
+            else:
+                sym = "wrong-value"
+            viol("nprocs", sym, f"JobInput built through an instance with nprocs={nprocs} carries -P {got_np} ({flavour})")
         if got_env != exp_env:
-            stale = any(got_env == tuple(sorted((e[2] or {}).items())) or set((e[2] or {}).items()) & (set(got_env) - set(exp_env)) for e in earlier)
-            viol("envars", "settings-of-other-driver" if stale else "wrong-value", f"JobInput built through a driver with envars={envars!r} carries {dict(got_env)!r}")
-        kw = "other " if jname == "other" else ""
-        want = f"echo {kw}tag{step} {step}" + (" > res.txt" if jname != "other" else "")
+            extra = set(got_env) - set(exp_env)
+            missing = set(exp_env) - set(got_env)
+            inst = raw[2] or {}
+            jobenv = JOB_ENV if jname == "jenv" else {}
+            clsenv = CLS_ENV if flavour != "plain" else {}
+            others = set()
+            for x in hist[:-1]:
+                if x[0] != "new" and x[1] != s:
+                    others |= set((settings[x[1]][2] or {}).items())
+            if (extra & others) - set(clsenv.items()) - set(jobenv.items()) or any(got_env == tuple(sorted(e[2].items())) for e in earlier):
+                sym = "settings-of-other-driver"
+            elif any(k in inst and (k, v) in extra for k, v in clsenv.items()):
+                sym = "class-default-overrides-instance"
+            elif any(k in jobenv and (k, v) in extra for k, v in list(inst.items()) + list(clsenv.items())):
+                sym = "job-level-setting-overridden"
+            elif missing & set(jobenv.items()):
+                sym = "job-level-setting-not-applied"
+            elif missing & set(clsenv.items()):
+                sym = "class-default-not-applied"
+            elif missing & set(inst.items()):
+                sym = "instance-setting-not-applied"
+            else:
+                sym = "wrong-value"
+            viol("envars", sym, f"JobInput built through an instance with envars={raw[2]!r} via job {jname} ({flavour}) carries {dict(got_env)!r}, expected {env!r}")
+        kw = "other " if jname in ("other", "jenv") else ""
+        want = f"echo {kw}tag{step} {step}" + ("" if kw else " > res.txt")
         if script != want:
             viol("arguments", "caller-arguments-not-reflected", f"command script {script!r} != {want!r}")
         if jid != nm:
             viol("arguments", "jid-not-from-input", f"jid {jid!r} != item name {nm!r}")
         if got_ret != JOB_RETURN[jname]:
             viol("return_files", "wrong-value", f"return_files {got_ret!r} != declared {JOB_RETURN[jname]!r}")
+    # building a JobInput must not change the settings objects that instances / jobs share
+    if state["cls_env"] is not None and (state["cls_env"] != CLS_ENV or not state["cls_env_same_object"]):
+        viol("shared-state", "class-level-envars-mutated", f"the class-level envars dict became {state['cls_env']!r} (declared {CLS_ENV!r})")
+    if state["job_env"] is not None and state["job_env"] != JOB_ENV:
+        viol("shared-state", "job-level-envars-mutated", f"the envars declared on the Job became {state['job_env']!r} (declared {JOB_ENV!r})")
+    if state["inst_env"] != state["inst_env_expected"]:
+        viol("shared-state", "instance-envars-mutated", f"instance envars became {state['inst_env']!r} (set: {state['inst_env_expected']!r})")
     return ok
 
 
@@ -261,54 +371,73 @@ class D(DriverBase):
         return JobInput(name, commands=[(f"{self.executable} -P {self.nprocs}", None)], return_files=self.return_files, envars=self.envars)
 d1 = D("sh", nprocs=1, envars={"A": "one"}); d2 = D("bash", nprocs=7, envars={"A": "seven"})
 print(d1.task.prepare("x"))   # sh -P 1, {'A': 'one'}
-print(d2.task.prepare("y"))   # expected bash -P 7, {'A': 'seven'}; observed: sh -P 1, {'A': 'one'}
+print(d2.task.prepare("y"))   # expected bash -P 7, {'A': 'seven'}
+"""
+
+CLASS_REPRO = """\
+from molli.pipeline.job import Job, JobInput
+class Host:                                   # Job.__get__ supports class-level defaults (getattr(objtype, ...))
+    executable = "sh"; nprocs = 4; envars = {"C": "cls"}
+    def __init__(self, **kw): self.__dict__.update(kw)
+    @Job(return_files=()).prep
+    def task(self, name):
+        return JobInput(name, commands=[(f"{self.executable} -P {self.nprocs}", None)], return_files=self.return_files, envars=self.envars)
+h = Host(executable="bash", nprocs=7, envars={"A": "seven"})
+print(h.executable, h.nprocs, h.task.prepare("x"))
+# instance says bash / 7; expected 'bash -P 7'; observed 'sh -P 4': job.py Job.__get__ asks the class before the instance
 """
 
 
 def binding_parts(ctx, seed):
-    """Partition of part A: one part per creation order.  Orders of 3 drivers run to U3 uses, orders of
-    2 drivers to U2 > U3 uses; a history that two parts generate (a common prefix) is counted and
-    reported by exactly one of them."""
-    u3, u2 = (4, 5) if ctx.thorough else (3, 4)
-    jobs = list(JOBS)
-    r = seed % len(jobs)
-    jobs = jobs[r:] + jobs[:r]
+    """Partition of part A: one part per (flavour, creation order).  Orders of 3 instances run to U3
+    uses, orders of 2 instances to U2 > U3 uses; a history that two parts generate (a common prefix)
+    is counted and reported by exactly one of them."""
     parts = []
-    for n, uses in ((2, u2), (3, u3)):
-        orders = list(itertools.permutations(range(len(SETTINGS)), n))
-        ro = seed % len(orders)
-        # the deep 2-driver histories of the quick tier use one plain and the vectorised job
-        jj = jobs if (ctx.thorough or n == 3) else [j for j in jobs if j in ("single", "many")]
-        for order in orders[ro:] + orders[:ro]:
-            parts.append(("A", n, order, uses, u3, jj))
-    ctx.bound["A_drivers"] = "2..3"
-    ctx.bound["A_max_uses"] = {"2 drivers": u2, "3 drivers": u3}
-    ctx.bound["A_jobs"] = {"3 drivers": list(JOBS), "2 drivers": list(JOBS) if ctx.thorough else ["single", "many"]}
+    bounds = {}
+    for flavour, fl in FLAVOURS.items():
+        if flavour == "plain":
+            u3, u2 = (4, 5) if ctx.thorough else (3, 4)
+        else:
+            u3, u2 = (3, 4) if ctx.thorough else (2, 3)
+        jobs = list(fl["jobs"])
+        r = seed % len(jobs)
+        jobs = jobs[r:] + jobs[:r]
+        nset = len(fl["settings"])
+        for n, uses in ((2, u2), (3, u3)):
+            orders = list(itertools.permutations(range(nset), n))
+            ro = seed % len(orders)
+            # the deep 2-instance histories of the quick tier of the plain flavour use one plain and the vectorised job
+            jj = jobs if (ctx.thorough or n == 3 or flavour != "plain") else [j for j in jobs if j in ("single", "many")]
+            for order in orders[ro:] + orders[:ro]:
+                parts.append(("A", flavour, n, order, uses, u3, jj))
+        bounds[flavour] = {"instances": "2..3 of %d settings" % nset, "max_uses": {"2 instances": u2, "3 instances": u3}, "jobs": list(fl["jobs"])}
+    ctx.bound["A"] = bounds
     return parts
 
 
-def _owned(hist, n, order, u3):
+def _owned(hist, n, order, u3, nset):
     created = [op[1] for op in hist if op[0] == "new"]
     nuses = len(hist) - len(created)
-    others = sorted(set(range(len(SETTINGS))) - {order[0]})
-    if n == 3:
-        return len(created) >= 2 or order[1] == others[0]
-    if nuses <= u3:
-        return False  # a prefix of a 3-driver history
-    return len(created) >= 2 or order[1] == others[0]
+    if n == 2 and nuses <= u3:
+        return False  # a prefix of a 3-instance history
+    # of the parts that share a history with fewer than n creations, the one whose remaining order is the
+    # ascending completion owns it
+    rest = sorted(set(range(nset)) - set(created))
+    return list(order[len(created) :]) == rest[: n - len(created)]
 
 
 def run_binding_part(ctx, part):
-    _, n, order, uses, u3, jobs = part
+    _, flavour, n, order, uses, u3, jobs = part
+    nset = len(FLAVOURS[flavour]["settings"])
     bad_prefix: set = set()
     total = nhist = 0
     for hist in binding_histories(n, uses, jobs, order):
         # do not continue a history after a violating step
         if any(hist[:k] in bad_prefix for k in range(1, len(hist))):
             continue
-        own = _owned(hist, n, order, u3)
-        obs, drivers = binding_exec(hist)
-        ok = binding_check_last(ctx, hist, obs, drivers, report=own)
+        own = _owned(hist, n, order, u3, nset)
+        obs, state = binding_exec(hist, flavour)
+        ok = binding_check_last(ctx, hist, obs, state, flavour, report=own)
         if not ok:
             bad_prefix.add(hist)
         if not own:
@@ -317,13 +446,15 @@ def run_binding_part(ctx, part):
         ctx.count(evaluations=1, traces=1, transitions=len(hist), states=1)
         if not ok:
             continue
+        if state["jobinput_shares_class_dict"]:
+            ctx.add_note("A_jobinput_envars_is_a_shared_settings_object", 1)
         nnew = sum(1 for x in hist if x[0] == "new")
         if nnew >= 2 and hist[-1][0] != "new":
-            ctx.nontrivial(("A", hist))
+            ctx.nontrivial(("A", flavour, hist))
         ctx.outcome(("A", hashlib.sha1(repr(obs).encode()).hexdigest()[:12]))
         total += 1
-        if total == 60 and order[0] == 0 and order[1] == 1:
-            ctx.sample({"part": "A", "history": [list(x) for x in hist], "observed_last": repr(obs[-1])[:300]})
+        if total == 60 and tuple(order[:2]) == (0, 1) and (n == 3 and order[2] == 2):
+            ctx.sample({"part": "A", "flavour": flavour, "history": [list(x) for x in hist], "observed_last": repr(obs[-1])[:300]})
     ctx.add_note("A_histories_executed", nhist)
     ctx.add_note("A_histories_without_violation", total)
 
@@ -332,6 +463,13 @@ def run_binding_part(ctx, part):
 # part B : execution
 # =================================================================================================
 KINDS = ("Q", "P", "Wa", "Wb", "X", "R", "E")
+# ways a command can fail: ordinary non-zero exit codes, death by a signal (subprocess reports -N), a
+# command the shell cannot find (127), a command that cannot be started at all (no such executable)
+FAIL_EXIT = {"X": 3, "X1": 1, "X255": 255}
+FAIL_SIGNAL = {"K9": "KILL", "K15": "TERM", "K11": "SEGV"}
+FAILS = ("X", "X1", "X255", "K9", "K15", "K11", "N127", "U")
+NEW_FAILS = tuple(k for k in FAILS if k != "X")
+UNSTARTABLE = "/nonexistent-c17/no-such-program"
 WFILE = {"Wa": "a.dat", "Wb": "b.bin"}
 RET_CHOICES = [(), ("a.dat",), ("b.bin",), ("a.dat", "b.bin"), None]
 TEXT_IN = "first line\nsecond line\n"
@@ -353,8 +491,12 @@ def body(kind, i, mdir, infile):
         return pre + f"echo out{i}; echo err{i} >&2"
     if kind in WFILE:
         return pre + f"printf '{kind}{i}\\000\\377\\n' > {WFILE[kind]}"
-    if kind == "X":
-        return pre + f"echo xo{i}; echo xe{i} >&2; exit 3"
+    if kind in FAIL_EXIT:
+        return pre + f"echo xo{i}; echo xe{i} >&2; exit {FAIL_EXIT[kind]}"
+    if kind in FAIL_SIGNAL:
+        return pre + f"echo xo{i}; echo xe{i} >&2; kill -{FAIL_SIGNAL[kind]} $$"
+    if kind == "N127":
+        return pre + f"echo xo{i}; c17-no-such-command-{i}"
     if kind == "R":
         return pre + f"cp {infile} {m}/read{i}; od -An -v -tx1 {infile} | tr -d ' \\n'"
     if kind == "E":
@@ -371,6 +513,9 @@ def make_exec_class():
             infile = {"text": "in.txt", "bin": "in.bin", None: None}[spec["infile"]]
             cmds = []
             for i, (kind, named) in enumerate(zip(spec["cmds"], spec["named"])):
+                if kind == "U":
+                    cmds.append((f"{UNSTARTABLE} {i}", f"c{i}" if named else None))
+                    continue
                 cmds.append((shlex.join([self.executable, "-c", body(kind, i, mdir, infile)]), f"c{i}" if named else None))
             files = None
             if spec["infile"] == "text":
@@ -422,15 +567,23 @@ def reference(spec):
         content_in = BIN_IN
     reads = {}
     envs = {}
+    unstartable = False
     for i, (kind, named) in enumerate(zip(spec["cmds"], spec["named"])):
+        if kind == "U":
+            # never starts: leaves no trace, its (empty or absent) capture is not constrained
+            failed = i
+            unstartable = True
+            break
         ran.append(i)
         so = se = ""
         if kind == "P":
             so, se = f"out{i}\n", f"err{i}\n"
         elif kind in WFILE:
             written[WFILE[kind]] = wbytes(kind, i)
-        elif kind == "X":
+        elif kind in FAIL_EXIT or kind in FAIL_SIGNAL:
             so, se = f"xo{i}\n", f"xe{i}\n"
+        elif kind == "N127":
+            so, se = f"xo{i}\n", None  # the shell's own "not found" message is not specified
         elif kind == "R":
             so = content_in.hex()
             reads[i] = content_in
@@ -440,13 +593,13 @@ def reference(spec):
         if named:
             stdouts[f"c{i}"] = so
             stderrs[f"c{i}"] = se
-        if kind == "X":
+        if kind in FAILS:
             failed = i
             break
     ret = spec["ret"] or ()
     files = {f: written[f] for f in ret if f in written}
     ok = failed is None and all(f in written for f in ret)
-    return dict(ran=ran, stdouts=stdouts, stderrs=stderrs, files=files, exit_ok=ok, failed=failed, reads=reads, envs=envs, missing=[f for f in ret if f not in written])
+    return dict(ran=ran, stdouts=stdouts, stderrs=stderrs, files=files, exit_ok=ok, failed=failed, unstartable=unstartable, reads=reads, envs=envs, missing=[f for f in ret if f not in written])
 
 
 class _NoClose:
@@ -574,7 +727,14 @@ def check_exec(ctx, spec, obs, case):
         nv += 1
         ctx.violation(f"exec:{clause}:{symptom}", what, case, repro=repro)
 
-    if obs["exc"] is not None:
+    fk = None if ref["failed"] is None else spec["cmds"][ref["failed"]]
+    fclass = None if fk is None else "exit-code" if fk in FAIL_EXIT else "signal" if fk in FAIL_SIGNAL else "shell-127" if fk == "N127" else "unstartable"
+    crashed_on_unstartable = False
+    if obs["exc"] is not None and ref["unstartable"] and obs["exc"] in ("FileNotFoundError", "PermissionError", "OSError"):
+        # a command that cannot be started: the runner may stop with the OS error (the console script then
+        # exits non-zero) instead of writing a JobOutput - see assumptions
+        crashed_on_unstartable = True
+    elif obs["exc"] is not None:
         viol(
             "exception-escapes",
             f"{obs['exc']}:{spec_class(spec)}",
@@ -585,7 +745,7 @@ def check_exec(ctx, spec, obs, case):
     # -- what ran, in which order, where it stopped
     if obs["order"] != ref["ran"]:
         if obs["order"][: len(ref["ran"])] == ref["ran"] and len(obs["order"]) > len(ref["ran"]):
-            sym = "command-ran-after-failure"
+            sym = f"command-ran-after-failure[{fclass}]"
         elif ref["ran"][: len(obs["order"])] == obs["order"]:
             sym = "commands-not-all-run"
         else:
@@ -611,7 +771,9 @@ def check_exec(ctx, spec, obs, case):
             viol("environment", f"job-envar-not-effective[{spec['env']}]", f"command saw ${VAR}={obs['envs'].get(i)!r}, JobInput.envars says {v!r} (mode {spec['env']})")
     # -- the JobOutput
     out = obs["out"]
-    if out is None:
+    if out is None and crashed_on_unstartable:
+        pass
+    elif out is None:
         viol("output", "no-readable-JobOutput", f"no readable <stem>.out in the output dir ({obs.get('out_error')}; other files {obs['other_outputs']})")
     else:
         so = out.stdouts or {}
@@ -624,7 +786,7 @@ def check_exec(ctx, spec, obs, case):
         for name, text in ref["stderrs"].items():
             if name not in se:
                 viol("capture", "stderr-missing", f"stderr of named command {name} not reported")
-            elif se[name] != text:
+            elif text is not None and se[name] != text:
                 viol("capture", "stderr-differs", f"stderr of {name}: {se[name]!r} != {text!r}")
         fl = out.files or {}
         for f, b in ref["files"].items():
@@ -636,12 +798,14 @@ def check_exec(ctx, spec, obs, case):
             viol("hash", "input_hash-differs-from-JobInput.hash", f"JobOutput.input_hash {out.input_hash!r} != JobInput.hash")
     # -- exit status
     ex = obs["exit"]
+    if crashed_on_unstartable and ex is None:
+        ex = "os-error"  # in-process: the exception that makes the console script exit non-zero
     if ref["exit_ok"]:
         if ex != 0:
             viol("exit-status", "nonzero-although-all-succeeded", f"exit status {ex!r} although every command succeeded and every requested file exists")
     else:
         if ex == 0:
-            sym = "zero-although-command-failed" if ref["failed"] is not None else "zero-although-requested-file-missing"
+            sym = f"zero-although-command-failed[{fclass}]" if ref["failed"] is not None else "zero-although-requested-file-missing"
             viol("exit-status", sym, f"exit status 0 although failed={ref['failed']} missing={ref['missing']}")
         elif ex == "returned-without-exit":
             viol("exit-status", "no-exit-status", "run_local returned without an exit status")
@@ -703,6 +867,38 @@ def enumerate_specs(ctx, seed):
         masks = naming_masks(4, full=False)
         for cmds in itertools.product(sub, repeat=4):
             specs.extend(specs_for(cmds, masks, [(), ("a.dat",), ("a.dat", "b.bin")]))
+    # failure modes: every list of length 1..4 over {print, write a.dat, FAIL} with at least one FAIL, for every
+    # way of failing (exit 1 / 255, killed by KILL / TERM / SEGV, shell cannot find the command, cannot be started)
+    fails = list(NEW_FAILS)
+    fails = fails[seed % len(fails) :] + fails[: seed % len(fails)]
+    seen = {spec_key(x, "") for x in specs}
+    for n in range(1, 5):
+        if ctx.thorough:
+            masks, rr = naming_masks(n, full=True), rets
+        else:
+            masks = [m for m in (tuple([True] * n), tuple([False] * n))]
+            rr = [(), ("a.dat",)]
+        for skel in itertools.product(("P", "Wa", "F"), repeat=n):
+            if "F" not in skel:
+                continue
+            for fk in fails:
+                cmds = tuple(fk if k == "F" else k for k in skel)
+                for sp in specs_for(cmds, masks, rr):
+                    k = spec_key(sp, "")
+                    if k not in seen:
+                        seen.add(k)
+                        specs.append(sp)
+    if ctx.thorough:
+        # and the full product of the whole alphabet (ordinary kinds + all failure modes) up to length 2
+        allk = kinds + fails
+        for n in (1, 2):
+            for cmds in itertools.product(allk, repeat=n):
+                for sp in specs_for(cmds, naming_masks(n, full=True), rets):
+                    k = spec_key(sp, "")
+                    if k not in seen:
+                        seen.add(k)
+                        specs.append(sp)
+    ctx.bound["B_failure_modes"] = {"modes": list(FAILS), "lists": "length 1..4 over {P, Wa, FAIL}, FAIL at every position" + ("; full 15-kind alphabet to length 2" if ctx.thorough else "")}
     ctx.bound["B_full_alphabet_length"] = full_len
     ctx.bound["B_length4"] = "full alphabet" if ctx.thorough else "sub-alphabet {P,X,Wa}, every pattern"
     return specs
@@ -748,6 +944,16 @@ def conformance_specs(ctx, specs, seed):
         out.append({"cmds": ["R", "Wa"], "named": [False, True], "ret": ["a.dat"], "infile": inf, "env": None})
     for env in ("job", "override"):
         out.append({"cmds": ["E"], "named": [True], "ret": [], "infile": None, "env": env})
+    for c, n, r in [
+        (["K9", "P"], [True, True], []),
+        (["P", "K15", "Wa"], [True, False, True], ["a.dat"]),
+        (["Wa", "K11", "P"], [False, True, True], ["a.dat"]),
+        (["N127", "P"], [True, True], []),
+        (["U", "P"], [True, True], []),
+        (["X255", "Wa"], [False, False], ["a.dat"]),
+        (["P", "X1"], [True, True], []),
+    ]:
+        out.append({"cmds": c, "named": n, "ret": r, "infile": None, "env": None})
     return out
 
 
@@ -771,7 +977,7 @@ def run_cases(sub, part):
         nv = check_exec(sub, spec, obs, case)
         key = spec_key(spec, via)
         sub.count(evaluations=1, traces=1, states=1, transitions=1 + len(obs["order"]))
-        if "X" in spec["cmds"] or spec["ret"] or any(spec["named"]):
+        if any(k in FAILS for k in spec["cmds"]) or spec["ret"] or any(spec["named"]):
             sub.nontrivial(key)
         out = obs["out"]
         digest = (
@@ -828,6 +1034,9 @@ def run(ctx):
     ctx.assumptions += [
         "a named command that did not run (after the first failure) may or may not have an entry in stdouts/stderrs: not checked",
         "files returned in addition to the requested ones, JobOutput.exitcode and the cwd of the calling process after run_local are not constrained by the property text: not checked (cwd is counted in a note)",
+        "a command that cannot be started at all (no such executable) counts as a failing command: the run must not exit 0, later commands must not run, no scratch residue; whether the runner still writes a JobOutput or stops with the OS error is not constrained by the property text",
+        "the text a shell prints when it cannot find a command (exit 127) is not checked",
+        "settings precedence: class-level defaults < driver instance < settings declared on the Job itself (as Job.__get__ documents for envars); sharing of one envars dict object between JobInputs is counted in a note, not a violation - only mutation of shared settings objects is",
         "return_files=None (the JobInput default, produced by every `@Job()` without return_files such as XTBDriver.energy_m) means 'no file requested'",
         "text input files are ASCII (the property does not fix an encoding for str file contents)",
         "command names are pairwise distinct and differ from file names",
@@ -842,8 +1051,9 @@ def run(ctx):
 def replay(ctx, case):
     if case.get("part") == "A":
         hist = tuple(tuple(x) for x in case["history"])
-        obs, drivers = binding_exec(hist)
-        binding_check_last(ctx, hist, obs, drivers)
+        flavour = case.get("flavour", "plain")
+        obs, state = binding_exec(hist, flavour)
+        binding_check_last(ctx, hist, obs, state, flavour)
         return
     spec = case["spec"]
     wd = Path(ctx.scratch) / "wd"
